@@ -134,13 +134,29 @@ func RunTables(behs [][]Step, tr *Trace, env Env, sum *Summary) {
 				b.I32(agent.SOCKET_COMMAND_RPORTFWD_ADD).I32(b2i(okv)).I32(tabSock + mid).I32(loop127).I32(4444).I32(loop127).I32(uint32(downPort))
 			case "PfClear":
 				b.I32(agent.SOCKET_COMMAND_RPORTFWD_CLEAR).I32(b2i(okv))
+			case "Burst":
 			default:
 				panic("harness-error: unknown tables op " + op)
 			}
 			// an outstanding request id, as for an operator-issued task
 			reqN++
 			a.AddRequest(agent.Job{RequestID: reqN, Command: cmd})
-			r := w.RequestWith(refdemon.Packages(id, k, []refdemon.Sub{{Cmd: cmd, Req: reqN, Body: b.B}}), 10*time.Second)
+			var r world.Result
+			if op == "Burst" {
+				// simultaneous check-ins for this session (against whatever the history has queued)
+				if o.Str("queue") != "none" {
+					a.AddJobToQueue(agent.Job{Command: agent.COMMAND_SOCKET, RequestID: reqN, Data: []any{agent.SOCKET_COMMAND_WRITE, 1, 1, []byte{1}}})
+				}
+				rs := w.Burst(refdemon.CheckIn(id, k), o.Int("width"), 10*time.Second)
+				r = rs[0]
+				for _, x := range rs {
+					if x.Panic != "" || x.Timeout || x.Status != 200 {
+						r = x
+					}
+				}
+			} else {
+				r = w.RequestWith(refdemon.Packages(id, k, []refdemon.Sub{{Cmd: cmd, Req: reqN, Body: b.B}}), 10*time.Second)
+			}
 			ok := true
 			fail := func(kind, detail string) {
 				ok = false
@@ -153,9 +169,16 @@ func RunTables(behs [][]Step, tr *Trace, env Env, sum *Summary) {
 				wedged = true
 			}
 			if !r.Timeout {
-				for name, m := range map[string]interface{ TryLock() bool }{"PortFwdsMtx": &a.PortFwdsMtx, "SocksCliMtx": &a.SocksCliMtx, "SocksSvrMtx": &a.SocksSvrMtx} {
-					if m.TryLock() {
+				for name, m := range map[string]interface{ TryLock() bool }{"JobQueueMtx": &a.JobQueueMtx, "PortFwdsMtx": &a.PortFwdsMtx, "SocksCliMtx": &a.SocksCliMtx, "SocksSvrMtx": &a.SocksSvrMtx} {
+					free := m.TryLock()
+					for t := 0; t < 100 && !free; t++ { // a relay goroutine may hold it for a moment; "left held" is for good
+						time.Sleep(2 * time.Millisecond)
+						free = m.TryLock()
+					}
+					if free {
 						switch name {
+						case "JobQueueMtx":
+							a.JobQueueMtx.Unlock()
 						case "PortFwdsMtx":
 							a.PortFwdsMtx.Unlock()
 						case "SocksCliMtx":
